@@ -116,6 +116,8 @@ def float_search(case, r, fail):
     if not qs:
         return
     low = min(qs)
+    if low <= 1e-290:
+        return      # the float product underflows: no statement
     Y = {E.show(t) for t in ys}
     # prefix completeness: every program of probability > low (1 + tol) was produced
     try:
